@@ -951,23 +951,31 @@ def _known_init_param_names(case, fail: Fail) -> bool:
 
 
 def _known_init_forwarded_annotation(case, fail: Fail) -> bool:
-    """`class A: x: T` followed by `self.x = ...` in `__init__`: the visitor forwards the class-level annotation (built in
-    the scope of the class) to the attribute assigned in `__init__`; the decoder resolves every expression of an attribute
-    that lies within the lines of `__init__` in the scope of that method. Only annotations of attributes, and only names
-    that resolve in one of the `__init__`-scope forms *after* the round trip."""
+    """The decoder resolves the expressions of an attribute in the scope of `__init__` when the attribute lies within the
+    lines of the class's `__init__` member, in the scope of the class otherwise. Two shapes defeat that rule, because the JSON
+    does not record the scope an expression was built in:
+    (a) `class A: x: T` followed by `self.x = ...` in `__init__`: the visitor forwards the class-level annotation (class scope)
+        to the attribute assigned in `__init__` (reloaded in `__init__` scope);
+    (b) a class body that defines `__init__` twice: attributes assigned by the first definition (its scope) lie outside the
+        lines of the surviving member (reloaded in class scope).
+    Only values/annotations of attributes, and for every name that differs exactly one side must have an `__init__`-scope form
+    (`name -> pkg.A(name)`, `name -> pkg.A.__init__.name`, or the class-name rule `A -> pkg.A` vs `pkg.A.A`)."""
     import re
+
+    def init_form(entry: str) -> bool:
+        return bool(re.fullmatch(r"(\w+)->[\w.]+\(\1\)", entry) or re.fullmatch(r"(\w+)->[\w.]+\.__init__\.\1", entry))
 
     diffs = _name_diffs(fail)
     if not diffs:
         return False
     for where, pairs in diffs:
-        if "parameters" in where or "annotation" not in where or not pairs:
+        if "parameters" in where or not ({"annotation", "value"} & set(where)) or not pairs:
             return False
         for x, y in pairs:
-            name, _, before = x.partition("->")
-            if re.fullmatch(r"(\w+)->[\w.]+\(\1\)", y) or re.fullmatch(r"(\w+)->[\w.]+\.__init__\.\1", y):
+            name = x.partition("->")[0]
+            if init_form(x) != init_form(y):
                 continue
-            if y.startswith(name + "->") and x == f"{y}.{name}":
+            if y.startswith(name + "->") and (x == f"{y}.{name}" or y == f"{x}.{name}"):
                 continue
             return False
     return True
@@ -996,7 +1004,7 @@ STEERING: dict = {
     "parsed-sections": "full-form identity is compared modulo docstring.parsed when a docstring parser is selected",
     "init-param-names": "`__init__` parameters, objects defined in `__init__` bodies and nested classes named like their enclosing class are renamed so that no expression of an instance attribute resolves differently from the function scope",
     "dataclass-inherited-fields": "classes decorated with dataclasses.dataclass are rendered without bases",
-    "init-forwarded-annotation": "attributes assigned in `__init__` get names (`x_i`) that no class-level attribute has, so no annotation is forwarded to them",
+    "init-forwarded-annotation": "attributes assigned in `__init__` get names (`x_i`) that no class-level attribute has, so no annotation is forwarded to them; a class body defines `__init__` at most once",
 }
 KNOWN: dict = {
     "parsed-sections": _known_parsed_sections,
